@@ -81,15 +81,7 @@ Definition obse_ok (i : obse_in) (o : obse_out) : bool :=
   | Some l => if fails || g || d then match l with [] => true | _ => false end
               else forallb (fun kv => negb (memN (fst kv) cursed)) l
   end.
-(* known class 1: a cursed chain with commit reports on the destination is not among the known sources *)
-Definition obse_known (i : obse_in) : N :=
-  let '(sup, known, r, pending) := i in
-  let '(fails, g, d, cursed) := r in
-  match known, pending with
-  | Some all, Some p => if existsb (fun kv => memN (fst kv) cursed && negb (memN (fst kv) all)) p then 1%N else 0%N
-  | _, _ => 0%N
-  end.
-Definition obse_judge := judge obse_model (option_eqb (list_eqb pN_eqb)) obse_ok obse_known.
+Definition obse_judge := judge obse_model (option_eqb (list_eqb pN_eqb)) obse_ok (fun _ => 0%N).
 
 (* ---- part accept: ShouldAcceptAttestedReport of both plugins ----
    plugin 0 commit: (srcs = chains of the merkle roots, tp, gp, sigs, info_ok, rmn, remoteF)
